@@ -126,6 +126,8 @@ def run_tlc(workdir, module, cfg_text, tag, workers=None, timeout=3000, env=None
             simulate=None, extra=None, heap="5g"):
     """Run TLC on spec/<module>.tla with the given config text in a scratch copy of spec/.
     Returns dict(rc, generated, distinct, out(str tail), violated(str|None), path)."""
+    if heap == "5g" and ("thorough" in sys.argv[2:] or os.environ.get("VERIF_TIER") == "thorough"):
+        heap = "9g"     # the thorough configurations export states with long fetch grids (at most four TLC runs side by side)
     sdir = os.path.join(workdir, "spec-" + tag)
     if not os.path.isdir(sdir):
         shutil.copytree(SPEC, sdir)
